@@ -4,6 +4,13 @@
 // declares nothing and is compiled only with -tags verif.
 package gen
 
+// Lock discipline of the default target manager: both indexes are read only with the manager's lock
+// held and written only with it write-held; every public operation is exactly one critical section
+// (postcondition one_critical_section), which is what makes the operations atomic w.r.t. each other
+// (A-ATOMIC then only assumes that sync.RWMutex excludes as documented).
+//@ guarded defaultTargetManager.relations by RWMutex
+//@ guarded defaultTargetManager.targetIndex by RWMutex
+
 // C04 / C06 / C14 / C18: the default target manager as an abstract set of relations
 // R = { (consumer, target, monitor) }. `rel` is membership in R; `tmWF` is the representation
 // invariant tying the primary map to the per-target index.
@@ -14,6 +21,8 @@ package gen
 
 //@ func (tm *defaultTargetManager) AddLink
 //@   props C04
+//@   ensures [one_critical_section] lockcount(tm.RWMutex) == old(lockcount(tm.RWMutex)) + 1 && !wlocked(tm.RWMutex) && !rlocked(tm.RWMutex)
+//@   requires [lock_free_at_entry] !wlocked(tm.RWMutex) && !rlocked(tm.RWMutex)
 //@   mode int
 //@   requires [wf] tmWF(tm)
 //@   ensures [added] result == nil ==> !old(rel(tm, relationKey{consumer, target, false})) && rel(tm, relationKey{consumer, target, false})
@@ -23,6 +32,8 @@ package gen
 
 //@ func (tm *defaultTargetManager) AddMonitor
 //@   props C04
+//@   ensures [one_critical_section] lockcount(tm.RWMutex) == old(lockcount(tm.RWMutex)) + 1 && !wlocked(tm.RWMutex) && !rlocked(tm.RWMutex)
+//@   requires [lock_free_at_entry] !wlocked(tm.RWMutex) && !rlocked(tm.RWMutex)
 //@   mode int
 //@   requires [wf] tmWF(tm)
 //@   ensures [added] result == nil ==> !old(rel(tm, relationKey{consumer, target, true})) && rel(tm, relationKey{consumer, target, true})
@@ -32,6 +43,8 @@ package gen
 
 //@ func (tm *defaultTargetManager) RemoveLink
 //@   props C04
+//@   ensures [one_critical_section] lockcount(tm.RWMutex) == old(lockcount(tm.RWMutex)) + 1 && !wlocked(tm.RWMutex) && !rlocked(tm.RWMutex)
+//@   requires [lock_free_at_entry] !wlocked(tm.RWMutex) && !rlocked(tm.RWMutex)
 //@   mode int
 //@   requires [wf] tmWF(tm)
 //@   ensures [removed] result == nil ==> old(rel(tm, relationKey{consumer, target, false})) && !rel(tm, relationKey{consumer, target, false})
@@ -41,6 +54,8 @@ package gen
 
 //@ func (tm *defaultTargetManager) RemoveMonitor
 //@   props C04
+//@   ensures [one_critical_section] lockcount(tm.RWMutex) == old(lockcount(tm.RWMutex)) + 1 && !wlocked(tm.RWMutex) && !rlocked(tm.RWMutex)
+//@   requires [lock_free_at_entry] !wlocked(tm.RWMutex) && !rlocked(tm.RWMutex)
 //@   mode int
 //@   requires [wf] tmWF(tm)
 //@   ensures [removed] result == nil ==> old(rel(tm, relationKey{consumer, target, true})) && !rel(tm, relationKey{consumer, target, true})
@@ -50,6 +65,8 @@ package gen
 
 //@ func (tm *defaultTargetManager) HasLink
 //@   props C04
+//@   ensures [one_critical_section] lockcount(tm.RWMutex) == old(lockcount(tm.RWMutex)) + 1 && !wlocked(tm.RWMutex) && !rlocked(tm.RWMutex)
+//@   requires [lock_free_at_entry] !wlocked(tm.RWMutex) && !rlocked(tm.RWMutex)
 //@   mode int
 //@   requires [wf] tmWF(tm)
 //@   ensures [view] result == rel(tm, relationKey{consumer, target, false})
@@ -57,6 +74,8 @@ package gen
 
 //@ func (tm *defaultTargetManager) HasMonitor
 //@   props C04
+//@   ensures [one_critical_section] lockcount(tm.RWMutex) == old(lockcount(tm.RWMutex)) + 1 && !wlocked(tm.RWMutex) && !rlocked(tm.RWMutex)
+//@   requires [lock_free_at_entry] !wlocked(tm.RWMutex) && !rlocked(tm.RWMutex)
 //@   mode int
 //@   requires [wf] tmWF(tm)
 //@   ensures [view] result == rel(tm, relationKey{consumer, target, true})
@@ -71,6 +90,8 @@ package gen
 // name exactly the consumers that had a link / a monitor on it, each exactly once.
 //@ func (tm *defaultTargetManager) CleanupTarget
 //@   props C04
+//@   ensures [one_critical_section] lockcount(tm.RWMutex) == old(lockcount(tm.RWMutex)) + 1 && !wlocked(tm.RWMutex) && !rlocked(tm.RWMutex)
+//@   requires [lock_free_at_entry] !wlocked(tm.RWMutex) && !rlocked(tm.RWMutex)
 //@   mode int
 //@   requires [wf] tmWF(tm)
 //@   loop 1 invariant [rel_minus_seen] forall k relationKey :: has(tm.relations, k) <==> (old(has(tm.relations, k)) && !seen(1, k))
@@ -96,6 +117,8 @@ package gen
 // lists name exactly its link / monitor targets, each exactly once.
 //@ func (tm *defaultTargetManager) CleanupConsumer
 //@   props C04 C06
+//@   ensures [one_critical_section] lockcount(tm.RWMutex) == old(lockcount(tm.RWMutex)) + 1 && !wlocked(tm.RWMutex) && !rlocked(tm.RWMutex)
+//@   requires [lock_free_at_entry] !wlocked(tm.RWMutex) && !rlocked(tm.RWMutex)
 //@   mode int
 //@   requires [wf] tmWF(tm)
 //@   loop 1 invariant [fields] tm.relations == old(tm.relations) && tm.targetIndex == old(tm.targetIndex)
@@ -123,6 +146,8 @@ package gen
 // (event fan-out) de-duplicate.
 //@ func (tm *defaultTargetManager) GetConsumersForTarget
 //@   props C04 C18
+//@   ensures [one_critical_section] lockcount(tm.RWMutex) == old(lockcount(tm.RWMutex)) + 1 && !wlocked(tm.RWMutex) && !rlocked(tm.RWMutex)
+//@   requires [lock_free_at_entry] !wlocked(tm.RWMutex) && !rlocked(tm.RWMutex)
 //@   mode int
 //@   requires [wf] tmWF(tm)
 //@   loop 1 invariant [sound_so_far] forall i int :: 0 <= i && i < len(consumers) ==> (seen(1, relationKey{consumers[i], target, false}) || seen(1, relationKey{consumers[i], target, true}))
@@ -134,6 +159,8 @@ package gen
 
 //@ func (tm *defaultTargetManager) GetTargetsForConsumer
 //@   props C04
+//@   ensures [one_critical_section] lockcount(tm.RWMutex) == old(lockcount(tm.RWMutex)) + 1 && !wlocked(tm.RWMutex) && !rlocked(tm.RWMutex)
+//@   requires [lock_free_at_entry] !wlocked(tm.RWMutex) && !rlocked(tm.RWMutex)
 //@   mode int
 //@   requires [wf] tmWF(tm)
 //@   loop 1 invariant [lists_apart] ptr(links) == nil || ptr(links) != ptr(monitors)
@@ -154,6 +181,8 @@ package gen
 //@ spec func onNode(t any, node Atom) bool = (typeis(t, PID) && t.(PID).Node == node) || (typeis(t, ProcessID) && t.(ProcessID).Node == node) || (typeis(t, Alias) && t.(Alias).Node == node) || (typeis(t, Event) && t.(Event).Node == node) || (typeis(t, Atom) && t.(Atom) == node)
 //@ func (tm *defaultTargetManager) CleanupNode
 //@   props C04 C14
+//@   ensures [one_critical_section] lockcount(tm.RWMutex) == old(lockcount(tm.RWMutex)) + 1 && !wlocked(tm.RWMutex) && !rlocked(tm.RWMutex)
+//@   requires [lock_free_at_entry] !wlocked(tm.RWMutex) && !rlocked(tm.RWMutex)
 //@   mode int
 //@   requires [wf] tmWF(tm)
 //@   loop 1 invariant [fields] tm.relations == old(tm.relations) && tm.targetIndex == old(tm.targetIndex)
